@@ -277,6 +277,17 @@ def _section_worker(arg):
             stats["no_base"] += 1
             continue
         stats["base_ok"] += 1
+        if s.get("__type__") == "device":
+            # devices validate with the common "device" base spec (as Device.validate_and_parse_config does)
+            try:
+                res2 = cv.validate_config(sec, copy.deepcopy(base), "dev", base_spec=("device",))
+                stats["with_base_spec"] = stats.get("with_base_spec", 0) + 1
+                for k in ("label", "tags", "debug"):
+                    if k not in res2:
+                        viols.setdefault("incomplete:base-spec", ("%s: key %r of the device base spec missing" %
+                                                                  (sec, k), {"section": sec, "key": k}))
+            except BaseException:   # noqa
+                pass
         # complete and typed
         for key, sp in s.items():
             if key.startswith("_") or sp == "ignore":
